@@ -1,6 +1,7 @@
 package util
 
 import (
+	"errors"
 	"fmt"
 	"net/http"
 	"net/http/httptest"
@@ -44,6 +45,30 @@ func (a *SSM) Do(method, path, body string) (int, string) {
 	w := httptest.NewRecorder()
 	a.mux.ServeHTTP(w, r)
 	return w.Code, w.Body.String()
+}
+
+// brokenWriter is the response side of a connection whose peer goes away: it takes the first
+// `left` bytes of the body and fails every write after that.
+type brokenWriter struct {
+	h    http.Header
+	left int
+}
+
+func (b *brokenWriter) Header() http.Header { return b.h }
+func (b *brokenWriter) WriteHeader(int)     {}
+func (b *brokenWriter) Write(p []byte) (int, error) {
+	if len(p) <= b.left {
+		b.left -= len(p)
+		return len(p), nil
+	}
+	n := b.left
+	b.left = 0
+	return n, errors.New("write: broken pipe")
+}
+
+// DoBroken performs one API call whose client stops reading after `after` body bytes.
+func (a *SSM) DoBroken(method, path string, after int) {
+	a.mux.ServeHTTP(&brokenWriter{h: http.Header{}, left: after}, httptest.NewRequest(method, path, nil))
 }
 
 func (a *SSM) MustDo(method, path, body string, want int) string {
